@@ -914,8 +914,27 @@ static void yuv_case(uint64_t idx, void *vctx)
         vf_count_libcalls(1);
         pixman_image_unref(d);
     }
+    /* the same pixels widened to float (scanline reader, float pipeline): each component is the 8-bit one / 255 */
+    float *resf = calloc((size_t)W * H * 4, sizeof(float));
+    {
+        pixman_image_t *d = pixman_image_create_bits(PIXMAN_rgba_float, W, H, (uint32_t *)resf, W * 16);
+        pixman_image_set_transform(src, NULL);
+        pixman_image_composite32(PIXMAN_OP_SRC, src, NULL, d, 0, 0, 0, 0, 0, 0, W, H);
+        vf_count_libcalls(1);
+        pixman_image_unref(d);
+    }
     pixman_image_unref(src);
     if (acc) for (size_t i = 0; i < size; i++) alloc[i] ^= SCR;
+    for (int i = 0; i < W * H && !vf_failed(); i++) {
+        uint32_t p = res[M_SCAN][i]; const float *f = resf + 4 * i;
+        float w4[4] = { (float)((p >> 16 & 255) / 255.0), (float)((p >> 8 & 255) / 255.0), (float)((p & 255) / 255.0), (float)((p >> 24) / 255.0) };
+        for (int q = 0; q < 4; q++) if (fabsf(f[q] - w4[q]) > 1e-6f) {
+            char key[64]; snprintf(key, sizeof key, "c10-yuv-float-widening-%s", fname);
+            vf_violation(key, "%s: pixel %d reads %#010x in the 8-bit pipeline but (r,g,b,a) = (%.6f, %.6f, %.6f, %.6f) in the float pipeline", what, i, p, f[0], f[1], f[2], f[3]);
+            break;
+        }
+    }
+    free(resf);
     uint64_t nontriv = 0, reads = acc_r_local - reads0;
     for (int y = 0; y < H && !vf_failed(); y++) for (int x = 0; x < W && !vf_failed(); x++) {
         int Y = (x & 1) ? 255 - x / 2 : x / 2; if (y == 0) Y = 255 - Y;
